@@ -39,6 +39,18 @@ WellFormed(r) == /\ Len(r.ring) = Len(r.tokens) /\ Len(r.ring) > 0
                  /\ \A k \in 1 .. Len(r.ring) : r.ring[k] \in 1 .. Len(r.dc)
                  /\ Len(r.dc) = Len(r.rack)
 
+\* After an update that could not be carried out (fault) the policy either knows nothing about the
+\* keyspace's replicas (empty lookup) or - when only the metadata lookup failed while the highest-
+\* numbered node left - the placement on the CURRENT ring.  The replica lists of the old ring / the old
+\* replication setting are stale.
+Reduced(r) ==
+  LET ix == SelectSeq([k \in 1 .. Len(r.ring) |-> k], LAMBDA k : r.ring[k] # Len(r.dc))
+  IN [r EXCEPT !.ring = [j \in 1 .. Len(ix) |-> r.ring[ix[j]]], !.tokens = [j \in 1 .. Len(ix) |-> r.tokens[ix[j]]]]
+Look3Fail(r, e) ==
+  IF e.hosts = <<>> THEN {}
+  ELSE IF r.fault = "fetch-remove" /\ LookFail(Reduced(r), e) = {} THEN {}
+  ELSE {"stale-replica-map"}
+
 Verdict(r) ==
   LET mapKinds == UNION {EntryFail(r, r.map[k]) : k \in 1 .. Len(r.map)}
       badLook == {k \in 1 .. Len(r.look) : LookFail(r, r.look[k]) # {}}
@@ -64,10 +76,11 @@ Verdict(r) ==
                       [t |-> r.look2[k].t, got |-> r.look2[k].hosts, ref |-> Ref(r, p), pos |-> p]
   IN [id |-> r.id, part |-> r.part, strat |-> r.strat, pclass |-> r.pclass, absentdc |-> NamesAbsentDc(r),
       map2kinds |-> map2Kinds, look2kinds |-> look2Kinds, sample2 |-> sample2,
+      look3kinds |-> UNION {Look3Fail(r, r.look3[k]) : k \in 1 .. Len(r.look3)}, fault |-> r.fault,
       mapkinds |-> mapKinds, lookkinds |-> lookKinds,
       nbadlook |-> Cardinality(badLook), nlook |-> Len(r.look), sample |-> sample]
 
-Holds(v) == v.pclass = "none" /\ v.mapkinds = {} /\ v.lookkinds = {} /\ v.map2kinds = {} /\ v.look2kinds = {}
+Holds(v) == v.pclass = "none" /\ v.mapkinds = {} /\ v.lookkinds = {} /\ v.map2kinds = {} /\ v.look2kinds = {} /\ v.look3kinds = {}
 
 Report == l > 0 =>
             IF ~WellFormed(Rec) THEN PrintT(<<"MALFORMED", ToJson([id |-> Rec.id])>>)
